@@ -2,7 +2,7 @@
 from corr import corr_terms, corr_tvd
 import implsearch as IS
 
-MODULES = ["PyFV.Props.C06", "PyFV.Props.GenEq", "PyFV.Props.GenEqUpw", "PyFV.Props.GenEqAvg"]
+MODULES = ["PyFV.Props.C06", "PyFV.Props.GenEq", "PyFV.Props.GenEqUpw", "PyFV.Props.GenEqAvg", "PyFV.Props.C06Sys"]
 TRANSLATORS = {"T-lim": "python3 harness/translate/tlim.py lean/PyFV/Gen/Limiters.lean", "T-num": "python3 harness/translate/tnum.py lean/PyFV/Gen/Stencils.lean", "T-upw": "python3 harness/translate/tupw.py lean/PyFV/Gen/StencilsUpw.lean", "T-avg": "python3 harness/translate/tavg.py lean/PyFV/Gen/AvgGen.lean"}
 
 
